@@ -4,7 +4,7 @@
 From Coq Require Import List Bool NArith String.
 From PC Require Import Base.Cmp Base.Result Model.Pep440 Spec.Pep440Spec Spec.Specifier Model.VConstraint
      Proofs.VersionFacts Proofs.RangeSpec Proofs.SpecifierAgree.
-From PC Require Import Proofs.UnionHull Proofs.UnionExact Proofs.InterExact Proofs.ParseCompose Proofs.Pep440RoundTrip Proofs.ClauseText Proofs.WildcardText.
+From PC Require Import Proofs.UnionHull Proofs.UnionExact Proofs.InterExact Proofs.ParseCompose Proofs.Pep440RoundTrip Proofs.ClauseText Proofs.WildcardText Proofs.WildcardMembership.
 Import ListNotations.
 Open Scope string_scope.
 
@@ -74,6 +74,17 @@ Proof.
   - apply (clause_wildcard m "!=" true r H). auto.
 Qed.
 Print Assumptions C04_wildcard_text.
+(* ... and what it admits: every well-formed candidate (pre-, post-, dev-releases, local builds) of epoch 0 whose zero-padded release
+   starts with R, and nothing else - PEP 440's prefix matching, in the implementation's own membership *)
+Theorem C04_wildcard_meaning : forall R, (1 <= List.length R <= 3)%nat ->
+  exists r, parse_single false ("==" ++ rel_text R ++ ".*") = Ok (VOne r) /\
+            forall v, wf v = true -> r_allows r v = (epoch v =? 0)%N && PrefixOrder.prefix R (rel v).
+Proof. exact wildcard_clause_meaning. Qed.
+Print Assumptions C04_wildcard_meaning.
+Example C04_wildcard_meaning_example :
+  exists r a b c, parse_single false "==1.2.*" = Ok (VOne r) /\ parse "1.2rc1+local" = Some a /\ parse "1.2.0.post3.dev1" = Some b /\ parse "1.20" = Some c /\
+    r_allows r a = true /\ r_allows r b = true /\ r_allows r c = false /\ PrefixOrder.prefix [1; 2]%N (rel c) = false.
+Proof. do 4 eexists. repeat split; vm_compute; reflexivity. Qed.
 Example C04_wildcard_example : parse_single false "==1.2.*" = Ok (VOne (RR (Some (first_devrelease (bare [1; 2]%N))) (Some (first_devrelease (bare [1; 3]%N))) true false)).
 Proof. vm_compute. reflexivity. Qed.
 
@@ -89,7 +100,7 @@ Example C04_desugar :
 Proof. eexists. repeat split; vm_compute; reflexivity. Qed.
 
 (* Not theorems at clause level (decided by the correspondence run and the reference oracle only): the meaning of '!=' as a
-   set (its two half-lines are C04_gt/C04_lt shapes), which versions a wildcard range admits, blanks and upper case inside a clause;
+   set (its two half-lines are C04_gt/C04_lt shapes), negated wildcards as sets, blanks and upper case inside a clause;
    for '^', '~', '~=' see C15. *)
 
 (* Proved by composition (every comma set of range-like clauses, every '||' of groups): what _parse_constraint builds from the
